@@ -159,5 +159,8 @@ def build(bt, spec, sim):
     if "bounds" in kw:
         kw["bounds"] = tuple(kw["bounds"])
     cls = getattr(A, a)
-    args = spec.get("args", [])
+    args = list(spec.get("args", []))
+    for i, x in enumerate(args):
+        if isinstance(x, str) and x.startswith("@"):
+            args[i] = sim.frames_by_name[x[1:]]
     return cls(*args, **kw)
